@@ -16,6 +16,11 @@ import random
 from vt import monitor, netgen, refsem, wf
 
 CUR = {'ctx': None, 'case': None, 'prop': None}
+import re as _re
+_RANDOM_LABEL = _re.compile(r'[0-9a-f]{32}')
+# labels the generators created that do not look random (fixed / derived names): hosts reuse them on purpose
+FIXED_LABELS = set(['new_zero', 'zero', 'one', 'inf_label', 'carry', 'tmp', 'res'])
+GENERATED = []   # circuits returned by generate_* (kept alive; the workload edits them as their owner would)
 AIG_FORBIDDEN = {'XOR', 'NXOR'}
 NS_MAX = 4096
 
@@ -136,6 +141,10 @@ def check_call(api, before, circuit, operands, outputs, fn, *, weighted=None, ba
     new_gates = [l for l in net.gates if before is None or l not in before['gates']]
     if before is None:
         new_gates = [l for l, (t, _) in net.gates.items() if t != 'INPUT']
+    if before is not None:
+        for l in new_gates:
+            if not _RANDOM_LABEL.search(l) and len(FIXED_LABELS) < 200:
+                FIXED_LABELS.add(l)
     if basis is not None:
         b = basis.upper() if isinstance(basis, str) else basis.value
         if b == 'AIG':
@@ -209,6 +218,16 @@ def make_host(rng, k_inputs=None, n_gates=None):
     net = netgen.rand_net(rng, n_in=k, n_g=g, shape=rng.choice(['random', 'wide', 'diamond']),
                           types=['AND', 'OR', 'XOR', 'NOT', 'NAND', 'GT', 'NXOR', 'IFF', 'LEQ'], max_arity=3,
                           n_out=rng.randint(0, 2), const_operands=False, label_style=rng.choice(['plain', 'digits']))
+    if rng.random() < 0.3 and FIXED_LABELS:
+        # a host that happens to use names the generators themselves like to use (with other functions)
+        pool = sorted(FIXED_LABELS)
+        mp = {}
+        for l in rng.sample(list(net.gates), min(len(net.gates), rng.randint(1, 3))):
+            nl = rng.choice(pool)
+            if nl not in net.gates and nl not in mp.values():
+                mp[l] = nl
+        if mp:
+            net = netgen.relabel(net, mp)
     return net
 
 
@@ -263,6 +282,15 @@ def attach(module_name, fname, pre, post, on_raise=None):
                 if vv is orig:
                     t[kk] = w
     return w
+
+
+def own_and_edit(circuit, rng):
+    """The caller owns what generate_* returned and edits it; later calls must hand out fresh, correct circuits."""
+    GENERATED.append(circuit)
+    if len(GENERATED) > 300:
+        del GENERATED[:100]
+    with monitor.suspended():
+        netgen.scribble(circuit, rng)
 
 
 def le(labels, big_endian):
